@@ -101,10 +101,10 @@ def contains_sym(tree, names):
 
 
 def rest_call_of_binding_inline(tree):
-    """a call `(f … &rest t)` of a defun-inline whose body contains a binding form."""
+    """a call `(f … &rest t)` of a defun-inline."""
     inl = set()
     for f in tree[1]:
-        if f[0] == "list" and len(f[1]) == 4 and f[1][0] == ("sym", "defun-inline") and contains_sym(f[1][3], BINDERS):
+        if f[0] == "list" and len(f[1]) == 4 and f[1][0] == ("sym", "defun-inline"):
             inl.add(f[1][1][1])
     if not inl:
         return False
@@ -170,7 +170,7 @@ def differential(chk, pid, progs, entries, label, model_lines=None, extra_check=
     results = {}
     for e in entries:
         il = [e + " " + p["text"].encode().hex() + " " + " ".join(gen.hexv(a) for a in p["args"]) for p in progs]
-        results[e] = lib.run_impl("compile", il, timeout=60, per_job=4)
+        results[e] = lib.run_impl("compile", il, timeout=(20 if chk.tier == "quick" else 120), per_job=4)
     for i, p in enumerate(progs):
         mf = mo[i].split()
         nontrivial = p["nfns"] > 0 or any(k in p["text"] for k in ("(let", "(assign", "(lambda"))
@@ -247,3 +247,49 @@ def name_lookup_correspondence(chk, rng, n):
     chk.count("name-lookup:cases", n)
     chk.count("name-lookup:disagreements", bad)
     chk.sample({"name_lookup_case": ml[0], "model": mo[0], "impl": io[0][:120]})
+
+
+CORE_FEATURES = ["functions", "destructure", "captures", "literals", "manyparams"]
+
+
+def core_correspondence(chk, rng, n, dialects=("cl21",)):
+    """Layer B tie: `Core.compileCore` (Lean) must be byte-identical to the real compiler's
+    non-optimising output on the core language, satisfy the theorem's decidable hypothesis
+    `progWF`, and `Core.evalProg` must agree with `Lang.evalSrc` and with the compiled run."""
+    for d in dialects:
+        progs = gen_programs(rng, d, n, nargs=3, features=CORE_FEATURES)
+        ml = [p["rich"] + " " + " ".join(gen.hexv(a) for a in p["args"]) for p in progs]
+        mo = lib.run_model("core", ml, per_job=20)
+        so = lib.run_model("src", ml, per_job=20)
+        io = lib.run_impl("compile", ["text:O0 " + p["text"].encode().hex() + " " + " ".join(gen.hexv(a) for a in p["args"])
+                                      for p in progs], per_job=4, timeout=60)
+        for p, a, s, b in zip(progs, mo, so, io):
+            af, sf, bf = a.split(), s.split(), b.split()
+            chk.count(f"core:{d}:{af[0] if af else 'none'}")
+            if not af or af[0] != "K":
+                continue
+            chk.note_case(("core", p["text"]), p["nfns"] > 0)
+            if af[1] != "wf":
+                chk.fail("correspondence", "corr:core-progWF", {"program": p["text"]},
+                         "generated core program does not satisfy the theorem's hypothesis progWF")
+            if not bf or bf[0] != "C":
+                chk.count(f"core:{d}:impl-{bf[0] if bf else 'none'}")
+                continue
+            if af[2] != bf[1]:
+                chk.count(f"core:{d}:BYTES-DIFFER")
+                chk.fail("correspondence", "corr:core-compile-bytes", {"dialect": d, "program": p["text"]},
+                         {"model": af[2][:400], "impl": bf[1][:400]})
+                # search for a failing input: does the real output still compute the source meaning?
+                for k, (x, y) in enumerate(zip(sf[1:], bf[2:])):
+                    if x[0] == "V" and x != y:
+                        chk.fail("oracle", classify("C01", p, "text:O0", x, y, bf[1]),
+                                 {"dialect": d, "entry": "text:O0", "program": p["text"], "args": gen.hexv(p["args"][k])},
+                                 {"source_meaning": x, "compiled_result": y})
+            else:
+                chk.count(f"core:{d}:bytes-equal")
+            for k, (x, y, z) in enumerate(zip(af[3:], bf[2:], sf[1:])):
+                if x[0] == "V" and (x != z):
+                    chk.fail("correspondence", "corr:core-vs-src-semantics", {"program": p["text"], "args": gen.hexv(p["args"][k])},
+                             {"evalCore": x, "evalSrc": z})
+        if progs:
+            chk.sample({"core_program": progs[0]["text"][:300], "model": mo[0][:200]})
